@@ -957,7 +957,9 @@ class EarlyStopConverter:
     )
     return policy.EarlyStopRequest(
         study_descriptor=study_descriptor,
-        trial_ids=proto.trial_ids,
+        # proto3 cannot tell an empty list from an unset one: no ids on the
+        # wire is the request for "all Trials" (trial_ids=None).
+        trial_ids=proto.trial_ids or None,
         checkpoint_dir=proto.checkpoint_dir,
     )
 
